@@ -4,6 +4,7 @@ import (
 	"fmt"
 	"go/types"
 	"os"
+	"path/filepath"
 	"runtime/debug"
 	"sort"
 	"strings"
@@ -30,7 +31,7 @@ func newEngine() *Engine {
 		fmt.Fprintln(os.Stderr, "goverif: the repository does not type-check")
 		os.Exit(2)
 	}
-	prog, _ := ssautil.AllPackages(pkgs, ssa.InstantiateGenerics)
+	prog, _ := ssautil.AllPackages(pkgs, ssa.InstantiateGenerics|ssa.GlobalDebug)
 	prog.Build()
 	e := &Engine{
 		prog:      prog,
@@ -79,7 +80,14 @@ func newEngine() *Engine {
 		}
 		return false
 	}
-	e.cfg.PhaseB = func(fn *ssa.Function) bool { return false }
+	// generator phase ("phase B"): code that consumes a finished model
+	e.cfg.PhaseB = func(fn *ssa.Function) bool {
+		for fn.Parent() != nil {
+			fn = fn.Parent()
+		}
+		pos := e.prog.Fset.Position(fn.Pos())
+		return strings.HasSuffix(pos.Filename, "_generator.go")
+	}
 	e.contracts = loadContracts(e, dirs)
 	return e
 }
@@ -95,7 +103,7 @@ func (e *Engine) typeInRepo(t types.Type) bool {
 // runInits executes the package initialisers of model and parser symbolically to obtain
 // the initial values of the global tables.
 func (e *Engine) runInits() {
-	s := &State{heap: Heap{slots: map[string]HeapArr{}, famVer: map[string]int{}}, nalloc: new(int), copies: map[int64]*arrCopy{}, allocTy: map[int64]string{}}
+	s := &State{heap: Heap{slots: map[string]HeapArr{}, famVer: map[string]int{}, frames: map[string]*frameRec{}, verAlloc: map[int]int{}}, nalloc: new(int), copies: map[int64]*arrCopy{}, allocTy: map[int64]string{}}
 	saved := e.cfg
 	cfg := *saved
 	cfg.Kinds = map[string]bool{}
@@ -191,6 +199,15 @@ func (e *Engine) verifyFunction(fn *ssa.Function) (rep FuncReport) {
 	}
 	e.entryAssumptions(s, f)
 	e.substituteParamEqualities(s, f)
+	e.curFramed = e.curPhaseB || (ct != nil && ct.framed)
+	e.curExcept = nil
+	if ct != nil {
+		for _, ex := range ct.frameExcept {
+			env := e.envForFrame(s, f, nil)
+			env.pkg = ex.pkg
+			e.curExcept = append(e.curExcept, e.evalFrameExc(env, ex))
+		}
+	}
 	// vacuity: the entry assumptions must not be contradictory
 	e.vacuity = append(e.vacuity, vacuityProbe{Func: rep.Func, Assumptions: append([]*Term(nil), s.pc...)})
 	res := e.runEntry(s)
@@ -249,12 +266,15 @@ func (e *Engine) discharge(budget time.Duration, workers int) {
 			defer wg.Done()
 			for r := range rch {
 				r.j.inst.Res = solve(r.script, budget)
+				if d := os.Getenv("GOVERIF_DUMP"); d != "" && r.j.inst.Res.Verdict != "unsat" {
+					os.WriteFile(filepath.Join(d, sanitize(r.j.o.Name)+".smt2"), []byte(r.script), 0644)
+				}
 			}
 		}()
 	}
 	_ = ch
 	for _, j := range jobs {
-		rch <- rendered{j, smtQuery(j.inst.Assumptions, j.inst.Goal)}
+		rch <- rendered{j, smtQuery(j.inst.Assumptions, j.inst.Goal, j.inst.Marks)}
 	}
 	close(rch)
 	wg.Wait()
